@@ -173,8 +173,9 @@ def bestOf (F : Facts) (op : BinOp) (best : Val) : List Val → EM Val
 /-- The sorting step of `sorted` on (key, element) pairs.
     * `reverse`: today the comparison is flipped (`order = GreaterThan`) and the same sort runs — tied elements keep
       their original order, as in Python; with the fact `sortedRevAfter` the list is sorted ascending and reversed.
-    * the sort is an insertion sort front to back (what `sort.Slice` is on up to 12 elements); with a key function and
-      more than 12 elements `sort.Slice` is not stable and the model does not follow it (`sortedStable = false`). -/
+    * the sort is an insertion sort front to back: the function every stable sort computes (`sort.SliceStable`, fact
+      `sortedStable`).  Under the old fact value (`sort.Slice`: insertion sort up to 12 elements, pdqsort beyond) the
+      order of tied elements of a longer list with a key function is unspecified and the model refuses to say. -/
 def sortCore (F : Facts) (rev keyedByFn : Bool) (keyed : List (Val × Val)) : EM (List Val) := do
   if keyedByFn && !F.sortedStable && keyed.length > 12 then
     fail "model: sort.Slice beyond 12 elements with a key function is not stable; not modelled"
